@@ -234,6 +234,71 @@ static void rel_set(uintptr_t o)
   (*syncvc)[o] = Cth[me];
   Cth[me].c[me]++;
 }
+// C++11 memory orders as passed by the compiler: relaxed 0, consume 1, acquire 2, release 3,
+// acq_rel 4, seq_cst 5.  The schedule is always sequentially consistent; the ORDERS decide
+// which happens-before edges an atomic operation contributes to the race detector, so that
+// e.g. a reference count decremented with memory_order_release only (no acquire before the
+// delete) is reported as the data race it is.  Fences are modelled in the usual way: a
+// relaxed load remembers the location's clock for a later acquire fence, a release fence
+// remembers the thread's clock for later relaxed stores.
+static VC AcqPending[MAXT];
+static VC RelFence[MAXT];
+static bool HasRelFence[MAXT];
+static inline bool mo_acq(int mo)
+{
+  return mo == 1 || mo == 2 || mo == 4 || mo == 5;
+}
+static inline bool mo_rel(int mo)
+{
+  return mo == 3 || mo == 4 || mo == 5;
+}
+static void hb_load(uintptr_t o, int mo)
+{
+  auto it = syncvc->find(o);
+  if (it == syncvc->end())
+    return;
+  if (mo_acq(mo))
+    Cth[me].join(it->second);
+  else
+    AcqPending[me].join(it->second);
+}
+static void hb_store(uintptr_t o, int mo)
+{
+  if (mo_rel(mo))
+    (*syncvc)[o] = Cth[me];
+  else if (HasRelFence[me])
+    (*syncvc)[o] = RelFence[me];
+  else
+    (*syncvc)[o] = VC();  // a relaxed store heads no release sequence
+  Cth[me].c[me]++;
+}
+static void hb_rmw(uintptr_t o, int mo)
+{
+  auto it = syncvc->find(o);
+  if (it != syncvc->end()) {
+    if (mo_acq(mo))
+      Cth[me].join(it->second);
+    else
+      AcqPending[me].join(it->second);
+  }
+  // an RMW continues the release sequence it reads from; it adds its own clock only if it releases
+  if (mo_rel(mo))
+    (*syncvc)[o].join(Cth[me]);
+  else if (HasRelFence[me])
+    (*syncvc)[o].join(RelFence[me]);
+  Cth[me].c[me]++;
+}
+static void hb_fence(int mo)
+{
+  if (mo_acq(mo))
+    Cth[me].join(AcqPending[me]);
+  if (mo_rel(mo)) {
+    RelFence[me] = Cth[me];
+    HasRelFence[me] = true;
+    Cth[me].c[me]++;
+  }
+}
+
 static void plain(uintptr_t a, long n, bool wr, void *pc)
 {
   if (!det_on || me < 0 || in_rt)
@@ -476,31 +541,34 @@ extern "C" const char *mc_scenario_name()
 // =========================================================================================
 // fake tsan runtime
 // =========================================================================================
-#define HB_LOAD(a)                                                  \
+#define HB_LOAD_MO(a, mo)                                           \
   do {                                                              \
     if (det_on && me >= 0 && !in_rt) {                              \
       RtGuard g;                                                    \
       check_freed((uintptr_t)(a), __builtin_return_address(0));     \
-      acq((uintptr_t)(a));                                          \
+      hb_load((uintptr_t)(a), (mo));                                \
     }                                                               \
   } while (0)
-#define HB_STORE(a)                                                 \
+#define HB_STORE_MO(a, mo)                                          \
   do {                                                              \
     if (det_on && me >= 0 && !in_rt) {                              \
       RtGuard g;                                                    \
       check_freed((uintptr_t)(a), __builtin_return_address(0));     \
-      rel_set((uintptr_t)(a));                                      \
+      hb_store((uintptr_t)(a), (mo));                               \
     }                                                               \
   } while (0)
-#define HB_RMW(a)                                                   \
+#define HB_RMW_MO(a, mo)                                            \
   do {                                                              \
     if (det_on && me >= 0 && !in_rt) {                              \
       RtGuard g;                                                    \
       check_freed((uintptr_t)(a), __builtin_return_address(0));     \
-      acq((uintptr_t)(a));                                          \
-      rel_join((uintptr_t)(a));                                     \
+      hb_rmw((uintptr_t)(a), (mo));                                 \
     }                                                               \
   } while (0)
+// volatile accesses (enkiTS's synchronisation) are treated as sequentially consistent atomics
+#define HB_LOAD(a) HB_LOAD_MO(a, 5)
+#define HB_STORE(a) HB_STORE_MO(a, 5)
+#define HB_RMW(a) HB_RMW_MO(a, 5)
 
 extern "C" {
 void __tsan_init() {}
@@ -577,99 +645,111 @@ void __tsan_write_range(void *a, long n)
       mod();                             \
   } while (0)
 #define AT(bits, TY)                                                                                   \
-  TY __tsan_atomic##bits##_load(const volatile TY *a, int)                                             \
+  TY __tsan_atomic##bits##_load(const volatile TY *a, int mo)                                             \
   {                                                                                                    \
     point_read("atomic-load", (const void *)a, __builtin_return_address(0));                           \
-    HB_LOAD(a);                                                                                        \
+    HB_LOAD_MO(a, mo);                                                                                        \
     return __atomic_load_n(a, __ATOMIC_SEQ_CST);                                                       \
   }                                                                                                    \
-  void __tsan_atomic##bits##_store(volatile TY *a, TY v, int)                                          \
+  void __tsan_atomic##bits##_store(volatile TY *a, TY v, int mo)                                          \
   {                                                                                                    \
     point("atomic-store", (const void *)a);                                                            \
     MODIF();                                                                                           \
-    HB_STORE(a);                                                                                       \
+    HB_STORE_MO(a, mo);                                                                                       \
     __atomic_store_n(a, v, __ATOMIC_SEQ_CST);                                                          \
   }                                                                                                    \
-  TY __tsan_atomic##bits##_exchange(volatile TY *a, TY v, int)                                         \
+  TY __tsan_atomic##bits##_exchange(volatile TY *a, TY v, int mo)                                         \
   {                                                                                                    \
     point("atomic-exchange", (const void *)a);                                                         \
     MODIF();                                                                                           \
-    HB_RMW(a);                                                                                         \
+    HB_RMW_MO(a, mo);                                                                                  \
     return __atomic_exchange_n(a, v, __ATOMIC_SEQ_CST);                                                \
   }                                                                                                    \
-  TY __tsan_atomic##bits##_fetch_add(volatile TY *a, TY v, int)                                        \
+  TY __tsan_atomic##bits##_fetch_add(volatile TY *a, TY v, int mo)                                        \
   {                                                                                                    \
     point("atomic-fetch_add", (const void *)a);                                                        \
     MODIF();                                                                                           \
-    HB_RMW(a);                                                                                         \
+    HB_RMW_MO(a, mo);                                                                                  \
     return __atomic_fetch_add(a, v, __ATOMIC_SEQ_CST);                                                 \
   }                                                                                                    \
-  TY __tsan_atomic##bits##_fetch_sub(volatile TY *a, TY v, int)                                        \
+  TY __tsan_atomic##bits##_fetch_sub(volatile TY *a, TY v, int mo)                                        \
   {                                                                                                    \
     point("atomic-fetch_sub", (const void *)a);                                                        \
     MODIF();                                                                                           \
-    HB_RMW(a);                                                                                         \
+    HB_RMW_MO(a, mo);                                                                                  \
     return __atomic_fetch_sub(a, v, __ATOMIC_SEQ_CST);                                                 \
   }                                                                                                    \
-  TY __tsan_atomic##bits##_fetch_and(volatile TY *a, TY v, int)                                        \
+  TY __tsan_atomic##bits##_fetch_and(volatile TY *a, TY v, int mo)                                        \
   {                                                                                                    \
     point("atomic-fetch_and", (const void *)a);                                                        \
     MODIF();                                                                                           \
-    HB_RMW(a);                                                                                         \
+    HB_RMW_MO(a, mo);                                                                                  \
     return __atomic_fetch_and(a, v, __ATOMIC_SEQ_CST);                                                 \
   }                                                                                                    \
-  TY __tsan_atomic##bits##_fetch_or(volatile TY *a, TY v, int)                                         \
+  TY __tsan_atomic##bits##_fetch_or(volatile TY *a, TY v, int mo)                                         \
   {                                                                                                    \
     point("atomic-fetch_or", (const void *)a);                                                         \
     MODIF();                                                                                           \
-    HB_RMW(a);                                                                                         \
+    HB_RMW_MO(a, mo);                                                                                  \
     return __atomic_fetch_or(a, v, __ATOMIC_SEQ_CST);                                                  \
   }                                                                                                    \
-  TY __tsan_atomic##bits##_fetch_xor(volatile TY *a, TY v, int)                                        \
+  TY __tsan_atomic##bits##_fetch_xor(volatile TY *a, TY v, int mo)                                        \
   {                                                                                                    \
     point("atomic-fetch_xor", (const void *)a);                                                        \
     MODIF();                                                                                           \
-    HB_RMW(a);                                                                                         \
+    HB_RMW_MO(a, mo);                                                                                  \
     return __atomic_fetch_xor(a, v, __ATOMIC_SEQ_CST);                                                 \
   }                                                                                                    \
-  TY __tsan_atomic##bits##_fetch_nand(volatile TY *a, TY v, int)                                       \
+  TY __tsan_atomic##bits##_fetch_nand(volatile TY *a, TY v, int mo)                                       \
   {                                                                                                    \
     point("atomic-fetch_nand", (const void *)a);                                                       \
     MODIF();                                                                                           \
-    HB_RMW(a);                                                                                         \
+    HB_RMW_MO(a, mo);                                                                                  \
     return __atomic_fetch_nand(a, v, __ATOMIC_SEQ_CST);                                                \
   }                                                                                                    \
-  int __tsan_atomic##bits##_compare_exchange_strong(volatile TY *a, TY *c, TY v, int, int)             \
+  int __tsan_atomic##bits##_compare_exchange_strong(volatile TY *a, TY *c, TY v, int mo, int fmo)             \
   {                                                                                                    \
     point("atomic-cas", (const void *)a);                                                              \
-    HB_RMW(a);                                                                                         \
     int ok = __atomic_compare_exchange_n(a, c, v, false, __ATOMIC_SEQ_CST, __ATOMIC_SEQ_CST);          \
-    if (ok)                                                                                            \
+    if (ok) {                                                                                          \
       MODIF();                                                                                         \
+      HB_RMW_MO(a, mo);                                                                                \
+    } else                                                                                             \
+      HB_LOAD_MO(a, fmo);                                                                              \
     return ok;                                                                                         \
   }                                                                                                    \
-  int __tsan_atomic##bits##_compare_exchange_weak(volatile TY *a, TY *c, TY v, int, int)               \
+  int __tsan_atomic##bits##_compare_exchange_weak(volatile TY *a, TY *c, TY v, int mo, int fmo)               \
   {                                                                                                    \
     point("atomic-cas", (const void *)a);                                                              \
-    HB_RMW(a);                                                                                         \
     int ok = __atomic_compare_exchange_n(a, c, v, false, __ATOMIC_SEQ_CST, __ATOMIC_SEQ_CST);          \
-    if (ok)                                                                                            \
+    if (ok) {                                                                                          \
       MODIF();                                                                                         \
+      HB_RMW_MO(a, mo);                                                                                \
+    } else                                                                                             \
+      HB_LOAD_MO(a, fmo);                                                                              \
     return ok;                                                                                         \
   }                                                                                                    \
-  TY __tsan_atomic##bits##_compare_exchange_val(volatile TY *a, TY c, TY v, int, int)                  \
+  TY __tsan_atomic##bits##_compare_exchange_val(volatile TY *a, TY c, TY v, int mo, int fmo)                  \
   {                                                                                                    \
     point("atomic-cas", (const void *)a);                                                              \
-    HB_RMW(a);                                                                                         \
-    if (__atomic_compare_exchange_n(a, &c, v, false, __ATOMIC_SEQ_CST, __ATOMIC_SEQ_CST))              \
+    if (__atomic_compare_exchange_n(a, &c, v, false, __ATOMIC_SEQ_CST, __ATOMIC_SEQ_CST)) {            \
       MODIF();                                                                                         \
+      HB_RMW_MO(a, mo);                                                                                \
+    } else                                                                                             \
+      HB_LOAD_MO(a, fmo);                                                                              \
     return c;                                                                                          \
   }
 AT(8, uint8_t)
 AT(16, uint16_t)
 AT(32, uint32_t)
 AT(64, uint64_t)
-void __tsan_atomic_thread_fence(int) {}
+void __tsan_atomic_thread_fence(int mo)
+{
+  if (det_on && me >= 0 && !in_rt) {
+    RtGuard g;
+    hb_fence(mo);
+  }
+}
 void __tsan_atomic_signal_fence(int) {}
 
 // =========================================================================================
